@@ -898,7 +898,7 @@ class Region(_RegionIO):
 
         Parameters
         ----------
-        vector : array-like of numbers.Number
+        vector : array-like of numbers.Real
 
             Vector to translate the region.
 
@@ -957,7 +957,7 @@ class Region(_RegionIO):
                 f" {len(self.pmin)}."
             )
         for elem in vector:
-            if not isinstance(elem, numbers.Number):
+            if not isinstance(elem, numbers.Real):
                 raise TypeError(
                     f"Unsupported element {elem} of type {type(elem)} for translate."
                 )
